@@ -16,19 +16,40 @@ pub fn write_file(key: &String, content: &Content, to: &PathBuf) -> std::io::Res
     // the temporary name is short (a note name may be as long as the file system allows)
     let temporary = path.with_file_name(format!(".iwe-tmp-{}", std::process::id()));
 
-    fs::write(&temporary, content.as_str())
-        .and_then(|_| {
-            // the note keeps its permissions (a private note stays private)
-            match fs::metadata(&path) {
-                Ok(metadata) => fs::set_permissions(&temporary, metadata.permissions()),
-                Err(_) => Ok(()),
+    let write = || -> std::io::Result<()> {
+        use std::io::Write;
+
+        let mut file = fs::File::create(&temporary)?;
+        file.write_all(content.as_bytes())?;
+        if let Ok(metadata) = fs::metadata(&path) {
+            // the note keeps its permissions (a private note stays private) ...
+            fs::set_permissions(&temporary, metadata.permissions())?;
+            // ... and, where the process may give files away (run as root over somebody's
+            // notes), its owner and group: a private note must stay readable to its owner
+            #[cfg(unix)]
+            {
+                use std::os::unix::fs::MetadataExt;
+                let own = file.metadata()?;
+                if own.uid() != metadata.uid() || own.gid() != metadata.gid() {
+                    let _ = std::os::unix::fs::fchown(
+                        &file,
+                        Some(metadata.uid()),
+                        Some(metadata.gid()),
+                    );
+                }
             }
-        })
-        .and_then(|_| fs::rename(&temporary, &path))
-        .map_err(|error| {
-            let _ = fs::remove_file(&temporary);
-            error
-        })
+        }
+        // a file system that writes behind (NFS, quotas) reports a full disk only when the
+        // data is flushed: that has to be known before the note is replaced
+        file.sync_all()?;
+        drop(file);
+        fs::rename(&temporary, &path)
+    };
+
+    write().map_err(|error| {
+        let _ = fs::remove_file(&temporary);
+        error
+    })
 }
 
 pub fn new_for_path(base_path: &PathBuf) -> State {
